@@ -2256,6 +2256,11 @@ def section_tracking_and_index(ctx, r, corr):
                          f'assert len(S.outputs) == {step + 1} == len(S.inputs)\n', detail=dict(history='\n'.join(lines)))
                 ok = False
                 break
+        if ok:
+            # the whole history against the model: one TrackingComposite folded over the submitted problems
+            corr.add(f"track {entry.replace('sample_', '')} {int(spin)} ; " + ' ; '.join(wire_bqm(p_j) for p_j in snapshots),
+                     '#'.join([str(len(S.outputs))] + [_rows_exp(rows_of(o)) for o in S.outputs] + [_rows_exp(rows_of(S.output))]),
+                     'TrackingComposite log', '\n'.join(lines))
         if ok and r.random() < .5:
             S.clear()
             ctx.tick('tracking log: clear')
